@@ -402,7 +402,8 @@ THEOREMS = {
         "C25_delete_204_iff_live_owned", "C25_delete_otherwise_indistinguishable", "C25_closed_evicted_expired_stay_lost", "C25_registry_only_from_opens",
         "C25_own_token_accepted_iff_codec_roundtrips",
     ],
-    "T_StickyTok": ["constants_tie", "layouts_tie", "messages_tie", "codec_tie", "C25_source_plaintext_decodable", "C25_source_aad_injective"],
+    "T_StickyTok": ["constants_tie", "layouts_tie", "messages_tie", "C25_source_plaintext_decodable", "C25_source_aad_injective"],
+    "L_StickyTokCodecTie": ["codec_tie", "C25_source_access_iff"],
 }
 
 
@@ -410,8 +411,10 @@ def run(ctx: Any) -> None:
     translate(ctx)
     ctx.prove(["model/M_StickyTok.vo", "gen/G_StickyTok.vo"], {})  # what the correspondence needs, whatever happens to the proofs
     ctx.prove(["prop/P_C25.vo", "refuted/R_C25.vo"], {"P_C25": THEOREMS["P_C25"]})
-    # separate build: a source whose server-id codec does not round-trip breaks exactly the tie
     ctx.prove(["tie/T_StickyTok.vo"], {"T_StickyTok": THEOREMS["T_StickyTok"]})
+    # separate build: a source whose server-id codec does not round-trip breaks exactly these obligations
+    ctx.prove(["proof/L_StickyTokCodecTie.vo"], {"L_StickyTokCodecTie": THEOREMS["L_StickyTokCodecTie"]})
+    ctx.log("proofs checked")
 
     from translate import t_c25_layout
 
@@ -655,6 +658,7 @@ def run(ctx: Any) -> None:
         W.delete("genuine", "B", IDENTS[2], tn)
         W.delete("lifecycle-closed", "B", IDENTS[2], tn)
 
+    ctx.log(f"implementation driven: {len(W.steps)} steps")
     ctx.rule = (
         "steps = (worker: key/server_id/registry snapshot) x logical clock x caller identity x {POST use, POST use_close, DELETE, open, reap, shutdown} x header, "
         "where headers are real tokens and their mutations by class: genuine, flip-text, flip-raw, truncate, variant (padding/junk/whitespace/re-encoding/unused bits), "
@@ -741,6 +745,7 @@ def _model_side(ctx: Any, W: World) -> None:
     )
     tdir = scratch_dir()
     try:
+        ctx.log("compiling tables")
         (tdir / "C25Tables.v").write_text(tables)
         pr = subprocess.run(["timeout", "900", "coqc", "-R", str(ctx.bdir), "VGI", "-Q", str(tdir), "C25T", "-w", "-all", "C25Tables.v"], cwd=tdir, capture_output=True, text=True)
         if pr.returncode != 0:
@@ -750,6 +755,7 @@ def _model_side(ctx: Any, W: World) -> None:
             f'Add LoadPath "{tdir}" as C25T.\nFrom Coq Require Import List NArith ZArith Bool.\nFrom VGI Require Import Bytes Layout M_StickyTok G_StickyTok.\n'
             "From C25T Require Import C25Tables.\nImport ListNotations.\nOpen Scope N_scope.\n"
         )
+        ctx.log("tables compiled; evaluating the model")
         ok, bad, clog = ctx.coq_mismatches(header, "run_case T_aead T_text gen_sid_codec", "out_eqb", cases, "case_in", "list N * registry", shard=300)
         ctx.count("model_cases", len(cases))
         ctx.obligation("correspondence:M_StickyTok.run_case", "correspondence", ok and not bad, clog if not ok else f"{len(bad)} of {len(cases)} steps disagree")
